@@ -215,6 +215,30 @@ func c12Scenarios(tier string) []engine.Scenario {
 		Need: []string{"accepted:otplogin:otp", "refused:otplogin:otp:used", "otp-issued", "otp-add-refused"},
 	})
 
+	// one-time passwords as the first factor of an account that also has a second factor
+	out = append(out, engine.Scenario{
+		Name: "otp+totp", Depth: depth, Cfg: world.Config{Modules: []string{"auth", "otp", "totp2fa", "recovery", "logout"}},
+		Init: func(s *world.Stack) *world.World {
+			w := world.NewWorld("B1", "B2")
+			flows.SeedAcct(s, w, flows.Acct{PID: U1, Password: P1, TOTPSecret: flows.TOTPSecrets[0], RecoveryCodes: []string{"aaaaa-11111"},
+				OTPs: []string{"11111111-11111111-11111111-11111111", "22222222-22222222-22222222-22222222"}})
+			flows.SeedAcct(s, w, flows.Acct{PID: U2, Password: P2, OTPs: []string{"aaaaaaaa-aaaaaaaa-aaaaaaaa-aaaaaaaa"}})
+			return w
+		},
+		Actions: func(s *world.Stack, w *world.World) []engine.Action {
+			var a []engine.Action
+			for _, b := range bothBrowsers {
+				a = append(a, otpLoginActs(w, b, accounts, accounts, false)...)
+				a = append(a, twofaValidateActs(s, w, b, accounts, nil, false)...)
+				a = append(a, simple("logout("+b+")", func(s *world.Stack) world.Req { return flows.Logout(s, b) }))
+			}
+			a = append(a, flows.Advance(31*time.Second))
+			return a
+		},
+		Model: c12Model, Monitor: c12Monitor, Cover: c12Cover,
+		Need: []string{"accepted:otplogin:otp", "accepted:totp_validate:code"},
+	})
+
 	for _, ot := range []bool{false, true} {
 		ot := ot
 		name := "totp"
